@@ -15,11 +15,12 @@ import (
 )
 
 // fact keys:
-//   NN:<value name>@<fn>     the SSA value is non-nil
-//   NNC:<canon addr>         the memory cell denoted by the address expression holds a non-nil value
-//   KEY:<canon map>|<canon key>   the key is present in the map
-//   ERRNIL:<call name>       the error result of the call is nil
-//   EXT:<canon msg>|<ext>    proto.HasExtension(msg, ext) returned true
+//
+//	NN:<value name>@<fn>     the SSA value is non-nil
+//	NNC:<canon addr>         the memory cell denoted by the address expression holds a non-nil value
+//	KEY:<canon map>|<canon key>   the key is present in the map
+//	ERRNIL:<call name>       the error result of the call is nil
+//	EXT:<canon msg>|<ext>    proto.HasExtension(msg, ext) returned true
 type fstate map[string][]string // fact -> cell classes it depends on (for kills)
 
 func (s fstate) clone() fstate {
@@ -63,11 +64,11 @@ type nilEngine struct {
 
 	paramNN   map[*ssa.Parameter]bool
 	paramDyn  map[*ssa.Parameter]bool // interface parameter whose dynamic value is a non-nil pointer at every call site
-	paramCell map[string]bool // "<fn>|<param>.<field>" -> the cell is non-nil at entry (all call sites establish it)
-	cellWant  map[string]bool // candidate param cells
+	paramCell map[string]bool         // "<fn>|<param>.<field>" -> the cell is non-nil at entry (all call sites establish it)
+	cellWant  map[string]bool         // candidate param cells
 	retNN     map[*ssa.Function][]bool
-	retPair   map[*ssa.Function][]int    // result idx -> error result idx when "err == nil => result non-nil", else -1
-	predNN    map[*ssa.Function][]int    // bool function: returns true => these params are non-nil
+	retPair   map[*ssa.Function][]int // result idx -> error result idx when "err == nil => result non-nil", else -1
+	predNN    map[*ssa.Function][]int // bool function: returns true => these params are non-nil
 	mods      map[*ssa.Function]map[string]bool
 	extTypes  map[string]string
 	entryNN   map[*ssa.Parameter]bool // contracts
@@ -77,19 +78,19 @@ type nilEngine struct {
 	structInv map[string]int // "Type.field" -> 1 invariant non-nil, 2 no
 
 	// per-function analysis results of the current round
-	in     map[*ssa.BasicBlock]fstate
-	cur    *ssa.Function
-	final  bool
-	nObl   int
-	byCtr  map[*ssa.Function]string // functions whose internal obligations are discharged by a contract
+	in    map[*ssa.BasicBlock]fstate
+	cur   *ssa.Function
+	final bool
+	nObl  int
+	byCtr map[*ssa.Function]string // functions whose internal obligations are discharged by a contract
 	// siteOK: for every Store / MapUpdate of a nillable value in an analysed function: the stored value was
 	// non-nil at that site in the previous round (optimistic fixpoint, like the summaries)
-	siteOK  map[ssa.Instruction]bool
+	siteOK map[ssa.Instruction]bool
 	// siteKeys: for every MapUpdate m2[k] = v, the canonical names of the maps M for which "k is a key of M"
 	// was known at that site (used for the key-subset lemma)
 	siteKeys map[ssa.Instruction]map[string]bool
-	assumed map[string]string // reviewed assumptions: "<fn short>|<descr(value)>" -> reason
-	used    map[string]int
+	assumed  map[string]string // reviewed assumptions: "<fn short>|<descr(value)>" -> reason
+	used     map[string]int
 }
 
 func vid(v ssa.Value) string {
